@@ -2,7 +2,7 @@
 # seedbatch.sh C05 C09 ... : run seedtest.py for every delivered change of the given properties (parallel 3)
 mkdir -p /verif/.work/seed-results
 for p in "$@"; do
-  for m in /tmp/seed/out-$p/m*; do
+  for m in ${SEEDROOT:-/tmp/seed}/out-$p/m*; do
     [ -f "$m/patch.diff" ] || continue
     n=$(basename $m)
     out=/verif/.work/seed-results/$p-$n.json
